@@ -1009,7 +1009,7 @@ ASSUMPTIONS = [
 EXPLANATION = "Defaults, attribute copy/coercion, metadata matrix layout and the guard of the affine rebuild."
 MANIFEST = {
     "category": "proof",
-    "text": "Variable's defaults, the attribute copy and Python-type coercion of _ast_symbols_to_variables (every attribute x value kind x declared type) and variable_metadata_function are verified on the real source: the metadata matrices have one column per attribute and the variables' rows in order (scalars repeated to the variable's size), and the affine shortcut is taken only if every attribute block is affine in the WHOLE parameter vector (a symbolic fact strictly stronger than affine in each parameter) and free of every operation the structural zero-Hessian test is blind to (piecewise-linear operations, comparisons, opaque function calls: the list of allowed operations is judged against a classification of all operation codes of the installed CasADi), in which case each output is reshape(J(0) p) + f(0). variable_metadata_function is a property of the model's CURRENT state: read, change (list replaced / attribute rewritten / variable moved), read again gives the function of the current variables; _substitute_metadata gives every expression-valued attribute its own substituted value in the declared Python type. A bounded replay evaluates real models' metadata at random parameter values. Model._expand_vectors (C18's contract) is discharged here for the attributes of the scalar elements.",
+    "text": "Variable's defaults, the attribute copy and Python-type coercion of _ast_symbols_to_variables (every attribute x value kind x declared type) and variable_metadata_function are verified on the real source: the metadata matrices have one column per attribute and the variables' rows in order (scalars repeated to the variable's size), and the affine shortcut is taken only if every attribute block is affine in the WHOLE parameter vector (a symbolic fact strictly stronger than affine in each parameter) and free of every operation the structural zero-Hessian test is blind to (piecewise-linear operations, comparisons, opaque function calls: the list of allowed operations is judged against a classification of all operation codes of the installed CasADi), in which case each output is reshape(J(0) p) + f(0). variable_metadata_function is a property of the model's CURRENT state: read, change (list replaced / attribute rewritten / variable moved), read again gives the function of the current variables; _substitute_metadata gives every expression-valued attribute its own substituted value in the declared Python type. A bounded replay evaluates real models' metadata at random parameter values. Model._expand_vectors (C18's contract) is discharged here for the attributes of the scalar elements. Generator.exitArray on two-level literals: entry (i, j) is entry j of the i-th inner literal, for nested lists and CasADi concatenations.",
     "note": "CasADi's algebra is assumed (affinity test via double Jacobian, layout, evaluation); shapes enumerated.",
     "technique": "contract-based deductive verification: symbolic execution with provenance-recording CasADi terms carrying ghost affinity facts, z3",
 }
